@@ -725,3 +725,20 @@ Definition implied (r : row) : list (row * bool) :=
       (seq 0 (S (Z.to_nat (r_addl r)))).
 Definition unlab_e (p : row * bool) : row * bool := (set_lab (fst p) 0, snd p).
 
+(* get_observations(model, keep_index=True): df[dvcol] of the observation records, original index kept *)
+Definition obs_keep_impl (d : dataset) : list (Z * Z) :=
+  map (fun r => (r_lab r, r_dv r)) (obs_rows (ds_sch d) (ds_rows d)).
+Fixpoint obs_keep_walk (s : schema) (rows : list row) : list (Z * Z) :=
+  match rows with
+  | [] => []
+  | r :: tl => if rec_mdv s r =? 0 then (r_lab r, r_dv r) :: obs_keep_walk s tl else obs_keep_walk s tl
+  end.
+
+
+(* the single guard of "time after dose = the walk over the working frame": get_doseid's guard on that
+   frame (the expanded frame when there is an ADDL column) *)
+Definition guard_tad_walk (d : dataset) : bool :=
+  match tad_frame d with
+  | Ok fr => guard_doseid (with_rows d (map fst fr) true)
+  | Err _ => false
+  end.
